@@ -112,7 +112,8 @@ func runC20(e *core.Env, n int) {
 				sc.Handler = append(sc.Handler, Op{Op: "sethdr", MD: metadata.MD{"pending": {"header"}}})
 			}
 			sc.Handler = append(sc.Handler, sends...)
-			if r.Intn(3) == 0 {
+			for nh := pick(r, 0, 0, 0, 1, 2, 3); nh > 0; nh-- {
+				// Header() may be asked for several times (interceptor + application); only the first can count as a receive
 				sc.Receiver = append(sc.Receiver, Op{Op: "header"})
 			}
 			for j := 0; j < k; j++ {
